@@ -10,7 +10,7 @@ class P(StreamProperty):
     pid = 'C06'
     module = 'OpenFecVerif.Props.C06'
     theorems = ['C06_points', 'C06_rs_generator_gf8', 'C06_rs_generator_gf4', 'C06_rs_systematic_rows', 'C06_rs_compat',
-                'C06_src_untouched_model', 'C06_null_slot_model']
+                'C06_src_untouched_model', 'C06_null_slot_model', 'C06_rs_encode_function']
     rule = ('encoder sessions, every repair ESI, application-allocated and NULL output slots, identity payloads (the output IS the generator row / '
             'the equation) and random payloads of lengths 1..40 and 1023..1025: every k for m=4, sampled k for m=8 (all k in thorough), the LDPC grid; GF(2^m) sessions preceded by a session of the other field size with the same (k, r); '
             'oracle on the real library: RS rows equal the Lagrange formula computed independently (Python, bit-level field), codec 1 and codec 2 (m=8) give '
